@@ -1072,3 +1072,98 @@ var anonymousChildren = func() int {
 	}
 	return 250000
 }()
+
+// TestSharedArgumentSlices: a slice or Attrs value a caller hands to one logger still belongs to the caller - who may
+// hand it to another logger, append to it or overwrite it. Directed (no generation): for every setter and builder that
+// takes a list, two fresh loggers get the SAME list value (built with spare capacity), then each gets one more
+// attribute of its own, then the caller scribbles over the list; each logger must print exactly what it was given.
+func TestSharedArgumentSlices(t *testing.T) {
+	defer vlib.Canon()()
+	slog.SetFlags(vlib.BaseFlags)
+	forms := []string{"SetAttrs1", "WithAttrs1", "WithAttrs1-option", "SetAttrs", "WithAttrs", "Set-kv", "With-kv", "New-kv"}
+	for _, form := range forms {
+		for _, preset := range []bool{false, true} {
+			mk := func() slog.Attrs {
+				l := make(slog.Attrs, 0, 16)
+				return append(l, slog.NewAttr("s1", 1), slog.NewAttr("s2", "two"))
+			}
+			list := mk()
+			kv := append(make([]any, 0, 16), "s1", 1, "s2", "two")
+			log := vlib.NewEventLog()
+			give := func(name string, id int) slog.Logger {
+				var lg slog.Logger = slog.New(name)
+				if preset {
+					lg.Set("pre", id) // the logger has attributes already
+				}
+				switch form {
+				case "SetAttrs1":
+					lg.SetAttrs1(list)
+				case "WithAttrs1":
+					lg = lg.WithAttrs1(list)
+				case "WithAttrs1-option":
+					lg = lg.New("kid", slog.WithAttrs1(list))
+				case "SetAttrs":
+					lg.SetAttrs(list...)
+				case "WithAttrs":
+					lg = lg.WithAttrs(list...)
+				case "Set-kv":
+					lg.Set(kv...)
+				case "With-kv":
+					lg = lg.With(kv...)
+				default:
+					lg = lg.New(append([]any{"kid"}, kv...)...) // (a fresh argument list holding the same pairs)
+				}
+				w := vlib.NewRec(log, id, 0)
+				lg.SetWriter(w).SetErrorWriter(w).SetLevel(slog.AlwaysLevel).SetJSONMode(true)
+				return lg
+			}
+			a := give("shared-a", 1)
+			b := give("shared-b", 2)
+			a.Set("own", "a")
+			b.Set("own", "b")
+			a.SetAttrs(slog.NewAttr("more", 1))
+			b.SetAttrs(slog.NewAttr("more", 2))
+			for i := range list[:cap(list)][:4] {
+				list[:cap(list)][i] = slog.NewAttr("scribbled-by-the-caller", i)
+			}
+			for i := range kv[:cap(kv)][:8] {
+				kv[:cap(kv)][i] = "scribbled-by-the-caller"
+			}
+			for id, lg := range map[int]slog.Logger{1: a, 2: b} {
+				before := log.Len()
+				lg.Info("shared argument probe")
+				var payload []byte
+				for _, e := range log.Snapshot()[before:] {
+					if e.W == id && e.Kind == "write" {
+						payload = e.Payload
+					}
+				}
+				o, err := vlib.DecodeJSONRecord(payload)
+				if err != nil {
+					t.Fatalf("C10 shared argument lists (%s, logger had attributes before=%v): logger %d printed %q: %v", form, preset, id, payload, err)
+				}
+				want := map[string]string{"s1": "1", "s2": "two", "own": map[int]string{1: "a", 2: "b"}[id], "more": fmt.Sprint(id)}
+				if preset && !strings.HasPrefix(form, "With") && form != "New-kv" && form != "WithAttrs1-option" {
+					want["pre"] = fmt.Sprint(id)
+				}
+				got := map[string]string{}
+				for _, k := range o.Keys {
+					if k == "time" || k == "logger" || k == "level" || k == "msg" || k == "caller" {
+						continue
+					}
+					got[k] = fmt.Sprint(o.Vals[k])
+				}
+				for k, v := range want {
+					if got[k] != v {
+						vlib.Discrep(t, "C10/isolation", "C10 shared argument lists (%s, logger had attributes before=%v): two loggers were given the same list value, then one more attribute each, then the caller overwrote the list; logger %d prints %v, its own attributes are %v", form, preset, id, got, want)
+						break
+					}
+				}
+				if _, leaked := got["scribbled-by-the-caller"]; leaked {
+					vlib.Discrep(t, "C10/isolation", "C10 shared argument lists (%s, logger had attributes before=%v): logger %d prints what the caller wrote into ITS list afterwards: %v", form, preset, id, got)
+				}
+			}
+			vlib.Case("TestSharedArgumentSlices", fmt.Sprintf("%s/%v", form, preset), "shared-argument-list/"+form)
+		}
+	}
+}
